@@ -145,7 +145,11 @@ def forgeLogRetry (ops : TxOps) (l ik hash : Nat) (body : Body) (fin : Resp → 
   | fuel + 1 =>
     .stmt ops.begin_ fun _ =>
       body
-        (fun e => .stmt ops.rollback_ fun _ =>
+        (fun e =>
+          -- a collision on (ledger, id) with an id from `nextval`: `NewErrConcurrentTransaction(*tx.ID)`
+          -- dereferences the nil id — the request panics (nothing of forgeLog runs any more)
+          if e = .uniqueTxId then fin { err := "panic" } else
+          .stmt ops.rollback_ fun _ =>
           match e with
           | .deadlock => forgeLogRetry ops l ik hash body fin fuel
           | .uniqueIK =>
@@ -161,7 +165,9 @@ def retryFuel : Nat := 4
 def forgeLog (ops : TxOps) (l ik hash : Nat) (body : Body) (fin : Resp → Prog) : Prog :=
   let run : Prog :=
     body
-      (fun e => .stmt ops.rollback_ fun _ =>
+      (fun e =>
+        if e = .uniqueTxId then fin { err := "panic" } else
+        .stmt ops.rollback_ fun _ =>
         if retryable e then forgeLogRetry ops l ik hash body fin retryFuel else fin { err := errName e })
       (fun r => .stmt ops.rollback_ fun _ => fin { err := r })
       (fun tx log => .stmt ops.commit_ fun _ => fin { tx := tx, log := log })
